@@ -141,7 +141,13 @@ func vhC04Sequential() {
 				case 2:
 					got, _ = io.ReadAll(resp.BodyStream())
 				}
-				resp.CloseBodyStream()
+				// the caller lets go of the stream explicitly, or just resets /
+				// releases the response object
+				if vBool("closeByReset") {
+					resp.Reset()
+				} else {
+					resp.CloseBodyStream()
+				}
 			} else {
 				got = resp.Body()
 			}
